@@ -518,6 +518,106 @@ fn run_op(tx: &mut Transaction, op: &Value) -> Value {
             }
             json!({ "ok": { "problems": problems } })
         }
+        "ecdsa_check" => {
+            // every signing entry point: verifies under the same hash choice, not under the other / another key / another message; low-S;
+            // deterministic (plain nonce mode) = independent RFC 6979 + low-S; ECDH symmetric
+            use ::ecdsa::hazmat::{rfc6979_generate_k, SignPrimitive};
+            use k256::elliptic_curve::ops::Reduce;
+            use sha2::{Digest, Sha256};
+            let key = hx(&op["key"]);
+            let msg = hx(&op["message"]);
+            let compressed = op["compressed"].as_bool().unwrap_or(true);
+            let sk = PrivateKey::from_bytes(&key).unwrap().compress_public_key(compressed);
+            let pk = sk.to_public_key().unwrap();
+            let other = PrivateKey::from_bytes(&[0x33u8; 32]).unwrap();
+            let other_pk = other.to_public_key().unwrap();
+            let mut problems: Vec<String> = vec![];
+            let half_n = hex::decode("7fffffffffffffffffffffffffffffff5d576e7357a4501ddfe92f46681b20a0").unwrap();
+            let mut other_msg = msg.clone();
+            other_msg.push(1);
+            for (aname, algo, oalgo) in [("Sha256", SigningHash::Sha256, SigningHash::Sha256d), ("Sha256d", SigningHash::Sha256d, SigningHash::Sha256)] {
+                let mut sigs: Vec<(String, Signature)> = vec![];
+                for rev in [false, true] {
+                    match ECDSA::sign_with_deterministic_k(&sk, &msg, algo, rev) {
+                        Ok(s1) => {
+                            match ECDSA::sign_with_deterministic_k(&sk, &msg, algo, rev) {
+                                Ok(s2) if s2.to_der_bytes() == s1.to_der_bytes() => {}
+                                _ => problems.push(format!("{} deterministic reverse_k={} is not reproducible", aname, rev)),
+                            }
+                            sigs.push((format!("deterministic(reverse_k={})", rev), s1));
+                        }
+                        Err(e) => problems.push(format!("{} deterministic reverse_k={} failed: {}", aname, rev, e)),
+                    }
+                    match ECDSA::sign_with_random_k(&sk, &msg, algo, rev) {
+                        Ok(s1) => sigs.push((format!("random(reverse_k={})", rev), s1)),
+                        Err(e) => problems.push(format!("{} random reverse_k={} failed: {}", aname, rev, e)),
+                    }
+                }
+                match ECDSA::sign_with_k(&sk, &other, &msg, algo) {
+                    Ok(s1) => sigs.push(("with_k".into(), s1)),
+                    Err(e) => problems.push(format!("{} with_k failed: {}", aname, e)),
+                }
+                for (name, sig) in &sigs {
+                    if !ECDSA::verify_digest(&msg, &pk, sig, algo).unwrap_or(false) {
+                        problems.push(format!("{} {}: signature does not verify", aname, name));
+                    }
+                    if ECDSA::verify_digest(&msg, &pk, sig, oalgo).unwrap_or(false) {
+                        problems.push(format!("{} {}: verifies under the other hash choice", aname, name));
+                    }
+                    if ECDSA::verify_digest(&other_msg, &pk, sig, algo).unwrap_or(false) {
+                        problems.push(format!("{} {}: verifies for a different message", aname, name));
+                    }
+                    if ECDSA::verify_digest(&msg, &other_pk, sig, algo).unwrap_or(false) {
+                        problems.push(format!("{} {}: verifies under a different key", aname, name));
+                    }
+                    if sig.s() > half_n {
+                        problems.push(format!("{} {}: high S", aname, name));
+                    }
+                    match sig.recover_public_key(&msg, algo) {
+                        Ok(rk) if rk.to_bytes().ok() == pk.to_bytes().ok() => {}
+                        _ => problems.push(format!("{} {}: recovery info does not recover the signer's key", aname, name)),
+                    }
+                }
+                // independent RFC 6979 (HMAC-SHA256) + low-S
+                let h1 = Sha256::digest(&msg);
+                let digest = if aname == "Sha256" { h1 } else { Sha256::digest(&h1) };
+                let d = *k256::SecretKey::from_be_bytes(&key).unwrap().to_nonzero_scalar();
+                let z = <k256::Scalar as Reduce<k256::U256>>::from_be_bytes_reduced(digest);
+                let k = rfc6979_generate_k::<k256::Secp256k1, Sha256>(&k256::SecretKey::from_be_bytes(&key).unwrap().to_nonzero_scalar(), &z, &[]);
+                if let Ok((rs, _)) = d.try_sign_prehashed(**k, z) {
+                    let mut rs = rs;
+                    let _ = rs.normalize_s();
+                    let want = rs.to_der().as_bytes().to_vec();
+                    if let Some((_, s1)) = sigs.iter().find(|(n, _)| n == "deterministic(reverse_k=false)") {
+                        if s1.to_der_bytes() != want {
+                            problems.push(format!("{} deterministic(reverse_k=false) != independent RFC 6979: {} vs {}", aname, hex::encode(s1.to_der_bytes()), hex::encode(&want)));
+                        }
+                    }
+                    if aname == "Sha256" {
+                        if let Ok(s3) = ECDSA::sign_digest_with_deterministic_k(&sk, &digest) {
+                            if !ECDSA::verify_hashbuf(&digest, &pk, &s3).unwrap_or(false) {
+                                problems.push("digest signer: signature does not verify against the digest".into());
+                            }
+                            if s3.s() > half_n {
+                                problems.push("digest signer: high S".into());
+                            }
+                            if s3.to_der_bytes() != want {
+                                problems.push("digest signer: signature != independent RFC 6979 over the digest".into());
+                            }
+                        } else {
+                            problems.push("digest signer failed".into());
+                        }
+                    }
+                }
+            }
+            let a = ECDH::derive_shared_key(&sk, &other_pk).ok();
+            let b = ECDH::derive_shared_key(&other, &pk).ok();
+            if a.is_none() || a != b {
+                problems.push("ECDH is not symmetric".into());
+            }
+            problems.truncate(8);
+            json!({ "ok": { "problems": problems } })
+        }
         "hash" => {
             let data = hx(&op["input"]);
             let key = op.get("key").map(|k| hx(k)).unwrap_or_default();
